@@ -29,6 +29,8 @@ use std::sync::{Arc, Mutex as StdMutex};
 
 pub struct C20;
 
+pub const TASK_STACK: usize = 2 << 20;
+
 #[derive(Clone, Debug, PartialEq)]
 pub struct Shared {
     pub family: Family,
@@ -805,6 +807,7 @@ fn sequential_digests(plan: &Plan) -> Vec<Vec<u64>> {
             ops.iter()
                 .map(|op| {
                     shuttle::current::reset_step_count();
+                    crate::sup::heartbeat();
                     run_op(op, &plan.shared, &mut mine, false)
                 })
                 .collect(),
@@ -854,6 +857,7 @@ fn scenario(plan: &Plan, stats: &Arc<StdMutex<IterStats>>, iteration: usize) {
                 mine = shared.iter().map(|s| decode(s, &s.program, &s.witness).ok()).collect();
             }
             for (k, op) in ops.iter().enumerate() {
+                crate::sup::heartbeat();
                 let d = run_op(op, &shared, &mut mine, true);
                 // an operation finished: progress was made, so the step bound (livelock detector)
                 // starts counting again
@@ -957,7 +961,8 @@ fn gen_shared(r: &mut Rng, out: &mut RunOut) -> Vec<Shared> {
         let family = if r.chance(2, 5) { Family::Elements } else { Family::Core };
         let rec = match r.below(10) {
             0 => {
-                let n = r.range(500, 6_000) as u32;
+                // deep node chains (every node dropped through the hook's yield point)
+                let n = r.range(500, 8_000) as u32;
                 programs::deep_recipe(r, family, n)
             }
             1 => programs::assert_recipe(r, family),
@@ -968,7 +973,7 @@ fn gen_shared(r: &mut Rng, out: &mut RunOut) -> Vec<Shared> {
         };
         if let Some(b) = programs::build(&rec) {
             let (p, w) = b.redeem.to_vec_with_witness();
-            if p.len() < 40_000 {
+            if p.len() < 60_000 {
                 v.push(Shared { family, program: p, witness: w });
             }
         }
@@ -1082,7 +1087,9 @@ fn fresh_process_reference(plan: &Plan) -> Result<Vec<Vec<u64>>, String> {
 
 fn shuttle_config(dir: &std::path::Path) -> shuttle::Config {
     let mut c = shuttle::Config::new();
-    c.stack_size = 8 << 20;
+    // 2 MiB per simulated thread (the default stack of a std thread): a recursive drop of a
+    // shared DAG a few ten thousand nodes deep overflows it, secp256k1 and the C evaluator fit
+    c.stack_size = TASK_STACK;
     c.failure_persistence = shuttle::FailurePersistence::File(Some(dir.to_path_buf()));
     c.max_steps = shuttle::MaxSteps::FailAfter(20_000_000);
     c.silence_warnings = true;
@@ -1242,7 +1249,9 @@ impl Engine for C20 {
         64 << 20
     }
     fn hang_secs(&self) -> u64 {
-        120
+        // wall clock is only a failure detector; generous, because one schedule of a heavy
+        // workload can take seconds on a loaded machine (operations send heartbeats)
+        600
     }
     fn run(&self, _run: u64, seed: u64, tier: Tier, out: &mut RunOut) {
         let (plan, gen_out) = in_shuttle(move || {
